@@ -101,24 +101,31 @@ theorem cleans_append_other (s : RW) (e : Ev) (h : isClean e = false) :
     (({ s with ev := s.ev ++ [e] } : RW).ev.filter isClean).length = cleans s := by
   simp [cleans, List.filter_append, h]
 
+/-- the regenerated facts about `cleanStream` the invariant rests on: the compare-and-swap is there, the body gives the
+gauge back and takes the stream off the active list -/
+theorem gen_clean_facts : cleanOnce = true ∧ hasStep .metrics = true ∧ metricsCountDown = true ∧ hasStep .delete = true ∧
+    endStreamCleans = true := by decide
+
 theorem cleanStream_inv (s : RW) (h : CleanInv s) : CleanInv (cleanStream s) := by
+  obtain ⟨g1, g2, g3, g4, _⟩ := gen_clean_facts
   unfold cleanStream
   by_cases hc : s.cleaned = true
-  · simp only [hc, if_true]; exact h
+  · simp only [g1, hc, Bool.and_self, if_true]; exact h
   · simp only [Bool.not_eq_true] at hc
     have h0 : cleans s = 0 := by have := h.count; simpa [hc] using this
     have hg := h.gauge
     rw [h0] at hg
     have h1 : (List.filter isClean [Ev.clean]).length = 1 := rfl
     have h2 : (List.filter isClean [Ev.ur, Ev.clean]).length = 1 := rfl
+    simp only [g1, hc, Bool.and_false, Bool.false_eq_true, if_false, cleanBody, g2, g3, g4, Bool.and_self, if_true, Bool.not_true]
     constructor
-    · simp only [cleans, hc, Bool.false_eq_true, if_false, if_true]
+    · simp only [cleans, if_true]
       simp only [cleans] at h0
       split <;> simp [List.filter_append, h0, h1, h2]
-    · simp only [cleans, hc, Bool.false_eq_true, if_false]
+    · simp only [cleans]
       simp only [cleans] at h0
       split <;> simp [List.filter_append, h0, hg, h1, h2]
-    · simp [hc]
+    · simp
 
 theorem CleanInv.congr {s s' : RW} (h : CleanInv s) (he : cleans s' = cleans s) (hc : s'.cleaned = s.cleaned)
     (ha : s'.active = s.active) (hl : s'.listed = s.listed) : CleanInv s' :=
@@ -142,6 +149,7 @@ theorem act_inv (o : Outs) (s : RW) (a : Act) (h : CleanInv s) : CleanInv (act o
   | store v => exact h.congr rfl rfl rfl rfl
   | call => exact h.congr (by simp [act, cleans, List.filter_append, isClean]) rfl rfl rfl
   | endStream =>
+    simp only [act, gen_clean_facts.2.2.2.2, if_true]
     apply cleanStream_inv
     exact h.congr (by simp [cleans, List.filter_append, isClean]) rfl rfl rfl
   | cleanStream => exact cleanStream_inv s h
